@@ -293,3 +293,27 @@ func VerifCfgFromRequest(urlPath string, nowMS int) string {
 	}
 	return fmt.Sprintf("ok now=%d start=%d idx=%d", now, cfg.StartTimeS, cfg.URLContentIdx)
 }
+
+// VerifRepDur describes one representation for VerifConsolidate: a single segment [0, Dur) in Timescale.
+type VerifRepDur struct {
+	ID           string
+	ContentType  string
+	Dur          uint64
+	Timescale    int
+	PreEncrypted bool
+}
+
+// VerifConsolidate runs consolidateAsset on an asset with the given representations: loop duration in ms,
+// the reference representation's id, or an error.
+func VerifConsolidate(reps []VerifRepDur) (loopDurMS int, refID string, err error) {
+	a := asset{AssetPath: "verif", Reps: make(map[string]*RepData)}
+	for _, r := range reps {
+		a.Reps[r.ID] = &RepData{ID: r.ID, ContentType: r.ContentType, MediaTimescale: r.Timescale, PreEncrypted: r.PreEncrypted,
+			Segments: []Segment{{StartTime: 0, EndTime: r.Dur, Nr: 1}}}
+	}
+	err = a.consolidateAsset(slog.New(slog.NewTextHandler(io.Discard, nil)))
+	if err != nil {
+		return 0, "", err
+	}
+	return a.LoopDurMS, a.refRep.ID, nil
+}
